@@ -55,7 +55,16 @@ def encode(obj):
     validate_encoded(obj)
     return obj
   elif isinstance(obj, list) or isinstance(obj, dict):
-    string = json.dumps(obj)
+    try:
+      string = json.dumps(obj)
+    except TypeError as err:
+      raise gfapy.TypeError(
+        "{} cannot be represented as JSON\n".format(repr(obj))+
+        "error message: {}".format(str(err))) from err
+    except ValueError as err:
+      raise gfapy.ValueError(
+        "{} cannot be represented as JSON\n".format(repr(obj))+
+        "error message: {}".format(str(err))) from err
     validate_all_printable(string)
     return string
   else:
